@@ -10,6 +10,7 @@ import (
 	"strings"
 
 	"github.com/polynetwork/poly/common"
+	"github.com/polynetwork/poly/common/constants"
 	"github.com/polynetwork/poly/core/store"
 	"github.com/polynetwork/poly/core/types"
 	"github.com/polynetwork/poly/merkle"
@@ -23,7 +24,8 @@ import (
 // arguments; the real executeBlock / handleTransaction / HandleInvokeTransaction / NativeService.Invoke / CacheDB run
 // it on a real ledger (LevelDB stores under $TMPDIR).
 //
-//	blk <height> <time> <tx>*     execute the next block on the committed state (ExecuteBlock; nothing is persisted)
+//	blk <dt> <tx>*                execute the next block (timestamp = previous + 1 + dt) on the committed state
+//	                              (ExecuteBlock; nothing is persisted)
 //	    <tx> ::= tx <signers> <C>.<m> [ <prog> ] | txchain <signers> <C>.<m> [ <prog> ] | txraw <signers> <hex>
 //	    <prog> ::= (put K V | del K | get K | cp K1 K2 | ntf D | mkl D | fail | ret D | wit X | inp | ctx | bi
 //	               | call C.m [ <prog> ] | try C.m [ <prog> ])*
@@ -31,6 +33,8 @@ import (
 //
 // outcome of blk: per transaction `ok|fail/<events>/<what the contract observed>`, then cross hashes, write set,
 // state-change digest and cross-state root.
+
+var genesisTimestamp = constants.GENESIS_BLOCK_TIMESTAMP
 
 var (
 	addrA = fillAddr(0xa1)
@@ -254,7 +258,7 @@ func runText(s *native.NativeService, text string) ([]byte, error) {
 		case "ctx":
 			tr.log = append(tr.log, "x:"+short(s.CurrentContext())+"/"+short(s.CallingContext()))
 		case "bi":
-			tr.log = append(tr.log, fmt.Sprintf("b:%d/%d", s.GetHeight(), s.GetTime()))
+			tr.log = append(tr.log, fmt.Sprintf("b:%d/%d", s.GetHeight(), s.GetTime()-genesisTimestamp))
 		case "call", "try":
 			res, err := s.NativeCall(in.addr, in.method, []byte(in.args))
 			if err != nil {
@@ -492,25 +496,21 @@ func renderResult(res store.ExecuteResult, txs []*types.Transaction, withLog boo
 func (f *atomic) Exec(r *hx.Run, op []string) string {
 	switch op[0] {
 	case "blk":
-		if len(op) < 3 {
+		if len(op) < 2 {
 			return "bad-op"
 		}
 		if err := f.ensure(); err != nil {
 			return "err-ledger:" + err.Error()
 		}
-		var height, ts uint32
-		fmt.Sscan(op[1], &height)
-		fmt.Sscan(op[2], &ts)
-		txs, ok := f.parseTxs(op[3:])
+		if !allDigits(op[1]) {
+			return "bad-op"
+		}
+		dt, _ := strconv.Atoi(op[1])
+		txs, ok := f.parseTxs(op[2:])
 		if !ok {
 			return "bad-op"
 		}
-		cur := f.led.ls.GetCurrentBlockHeight()
-		hdr, _ := f.led.ls.GetHeaderByHash(f.led.ls.GetCurrentBlockHash())
-		if height != cur+1 || ts <= hdr.Timestamp {
-			return "bad-op" // the generator tracks height and time; a replay file must do the same
-		}
-		blk, err := f.led.nextBlock(txs, ts-hdr.Timestamp-1)
+		blk, err := f.led.nextBlock(txs, uint32(dt))
 		if err != nil {
 			return "err-block:" + err.Error()
 		}
@@ -828,7 +828,6 @@ func (g *agen) tx(failing bool) string {
 func (f *atomic) Gen(r *hx.Run) {
 	r.Rule("blocks of 1..6 scripted transactions over a 4-key alphabet (programs of 1..8 primitive effects incl. nested calls to two test contracts, up to depth 3), with a failure injected at every position; each block executed by the real ExecuteBlock on a real ledger; some blocks are committed (AddBlock) so that later blocks read persisted state; distinct non-trivial = distinct (number of txs, ok/fail pattern, position of the failure, nested?) with at least one failing and one succeeding transaction")
 	g := &agen{r: r, keys: []string{"01", "02", "0301", "-"}}
-	const genesisTime = 1593416000 // constants.GENESIS_BLOCK_TIMESTAMP is read from the ledger below
 	id := 0
 	nCases := r.Pick(150, 6000)
 	if f.reps > 1 {
@@ -840,8 +839,6 @@ func (f *atomic) Gen(r *hx.Run) {
 		if err := f.ensure(); err != nil {
 			panic(err)
 		}
-		height := uint32(1)
-		ts := f.prevTimestamp() + 1
 		nb := 1 + r.Rng.Intn(6)
 		for b := 0; b < nb; b++ {
 			ntx := 1 + r.Rng.Intn(6)
@@ -859,8 +856,7 @@ func (f *atomic) Gen(r *hx.Run) {
 					pat += "o"
 				}
 			}
-			t := ts + uint32(r.Rng.Intn(3))
-			res := r.Do(fmt.Sprintf("blk %d %d %s", height, t, strings.Join(txs, " ")))
+			res := r.Do(fmt.Sprintf("blk %d %s", r.Rng.Intn(3), strings.Join(txs, " ")))
 			if strings.Contains(res, "fail/") && strings.Contains(res, "ok/") {
 				r.Nontrivial(fmt.Sprintf("%d/%s/%s/%v", ntx, pat, sig, strings.Contains(strings.Join(txs, " "), "call")))
 			}
@@ -872,10 +868,7 @@ func (f *atomic) Gen(r *hx.Run) {
 				r.Sample(map[string]interface{}{"block": strings.Join(txs, " "), "result": res})
 			}
 			if r.Rng.Chance(1, 2) {
-				if r.Do("commit") == "ok" {
-					height++
-					ts = t + 1
-				}
+				r.Do("commit")
 			}
 		}
 	}
@@ -889,26 +882,17 @@ func (f *atomic) Gen(r *hx.Run) {
 			p = append(p, "fail")
 			p = append(p, base[k+1:]...)
 		}
-		h := f.prevTimestampAfterEnsure()
-		r.Do(fmt.Sprintf("blk 1 %d tx s0 A.run [ put 02 11 ntf 99 ] tx s0 A.run [ %s ] tx - B.run [ get 01 get 02 get 0301 mkl 07 ]", h+1, strings.Join(p, " ")))
+		r.Do(fmt.Sprintf("blk 0 tx s0 A.run [ put 02 11 ntf 99 ] tx s0 A.run [ %s ] tx - B.run [ get 01 get 02 get 0301 mkl 07 ]", strings.Join(p, " ")))
 		r.Do("commit")
-		r.Do(fmt.Sprintf("blk 2 %d tx - B.run [ get 01 get 02 get 0301 ]", h+5))
+		r.Do("blk 3 tx - B.run [ get 01 get 02 get 0301 bi ]")
 		r.Nontrivial(fmt.Sprintf("failpos/%d", k))
 	}
 	// the context stack limit: 1023..1027 nested frames
 	for _, n := range []int{1, 2, 1022, 1023, 1024, 1025, 1026, 1030} {
 		id++
 		r.Case(fmt.Sprintf("depth-%d", n))
-		h := f.prevTimestampAfterEnsure()
-		r.Do(fmt.Sprintf("blk 1 %d tx s0 A.run [ ntf 01 mkl 01 put 01 01 call A.rec [ %d ntf 02 mkl 02 put 02 02 ctx ] ntf 03 inp ]", h+1, n))
+		r.Do(fmt.Sprintf("blk 0 tx s0 A.run [ ntf 01 mkl 01 put 01 01 call A.rec [ %d ntf 02 mkl 02 put 02 02 ctx ] ntf 03 inp ]", n))
 		r.Nontrivial(fmt.Sprintf("depth/%d", n))
 	}
-	_ = genesisTime
 }
 
-func (f *atomic) prevTimestampAfterEnsure() uint32 {
-	if err := f.ensure(); err != nil {
-		panic(err)
-	}
-	return f.prevTimestamp()
-}
